@@ -150,7 +150,7 @@ Lemma bonds_loop_chain rest : forall k bqs seen, (1 <= k)%nat ->
   bonds_loop [] (chain_bonds k rest) seen = Ok (chain_sbonds k bqs).
 Proof.
   induction rest as [|x r IH]; intros k bqs seen Hk HF Hs; inversion HF as [|? q ? qr Hq Hr]; subst; [reflexivity|].
-  cbn [chain_bonds bonds_loop stereo_of zget]. rewrite Hq.
+  cbn [chain_bonds bonds_loop]. unfold stereo_of. cbn [zget]. rewrite Hq.
   destruct (Z.of_nat k =? Z.of_nat k - 1) eqn:E; [apply Z.eqb_eq in E; lia|].
   assert (Hex : existsb (fun p => ((fst p =? Z.of_nat k) && (snd p =? Z.of_nat k - 1)) || ((fst p =? Z.of_nat k - 1) && (snd p =? Z.of_nat k))) seen = false).
   { destruct (existsb _ seen) eqn:Ex; [|reflexivity]. apply existsb_exists in Ex. destruct Ex as [p [Hp Hc]].
